@@ -57,6 +57,20 @@ def kernel_case(draw):
     c = draw(gen.cost_case(shapes=("tiny", "small", "small", "long", "wide")))
     c["layout"] = draw(st.sampled_from(["C", "C", "C", "F", "strided", "readonly"]))
     c["dtype"] = None
+    c.pop("reuse_buffers", None)
+    if c["cls"] == "E" and draw(st.integers(0, 7)) == 0:
+        # tables with NaN / +-inf entries: no optimum is defined for them (outside C01), but the three execution modes run the
+        # same IEEE arithmetic and must still return the same labels and the same (possibly non-finite) cost
+        cost = np.array(c["cost"], dtype=np.float64, copy=True)
+        k = draw(st.integers(1, max(1, cost.size // 4)))
+        pos = draw(st.lists(st.integers(0, cost.size - 1), min_size=k, max_size=k))
+        vals = draw(st.lists(st.sampled_from([float("nan"), float("inf"), float("-inf"), float("nan")]), min_size=k, max_size=k))
+        flat = cost.reshape(-1)
+        for p_, v_ in zip(pos, vals):
+            flat[p_] = v_
+        c["cost"] = cost
+        c["cls"] = "N"
+        return c
     if c["cls"] == "E" and draw(st.integers(0, 5)) == 0:
         c["dtype"] = draw(st.sampled_from(["float32", "int64"]))
         cost = np.round(np.asarray(c["cost"]))
@@ -83,8 +97,12 @@ def execute_kernel(case, t):
     T, K = cost.shape
     for m in ("jit", "nojit"):
         o = outs[m]
-        if o["labels"] == ref["labels"] and np.float64(o["cost"]).tobytes() == np.float64(ref["cost"]).tobytes():
+        same_cost = np.float64(o["cost"]).tobytes() == np.float64(ref["cost"]).tobytes() or (o["cost"] != o["cost"] and ref["cost"] != ref["cost"])
+        if o["labels"] == ref["labels"] and same_cost:
             continue
+        if case["cls"] == "N":
+            raise Violation(f"table with non-finite entries: mode {m} returns labels/cost different from the Numba-free run "
+                            f"(cost {o['cost']!r} vs {ref['cost']!r}; layout {case['layout']})")
         if case["cls"] == "E":
             raise Violation(f"exact-arithmetic case: mode {m} returns labels/cost different from the Numba-free run "
                             f"(cost {o['cost']!r} vs {ref['cost']!r}; layout {case['layout']}, dtype {case['dtype'] or 'float64'})")
@@ -100,6 +118,8 @@ def execute_kernel(case, t):
     if case["dtype"]:
         t.cls(f"dtype_{case['dtype']}")
     sw = sum(1 for a, b in zip(ref["labels"], ref["labels"][1:]) if a != b)
+    if case["cls"] == "N":
+        t.cls("non_finite_entries")
     if T >= 2 and K >= 2 and sw:
         t.mark_nontrivial({"labels": ref["labels"][:30], "cost": ref["cost"]})
 
